@@ -200,6 +200,23 @@ CHECKS = {
         note=NOTE_COMMON + " The attribution of differences on rejected documents to reserved spellings is an oracle check (over-approximating detector), not a theorem.",
         technique="Lean 4 proof (simulation between configurations by induction on fuel) + correspondence check in 4 builds + cross-configuration oracle",
     ),
+    "C19": dict(
+        category="proof",
+        text=("Lean theorems (Edn.Properties.C19): `#:p{body}` and `{body}` run the same entry loop - same error before the closing brace, "
+              "otherwise same values, and the namespaced map holds the plain map's keys passed through the key rewriting (unqualified keyword/symbol "
+              "-> p/name, `_`-qualified -> unqualified, others kept) with the duplicate verdict taken after rewriting; the prefix must be an unqualified "
+              "keyword followed by optional blanks and `{`; the five annotation forms expand as documented; merging a further outer annotation keeps "
+              "keys pairwise distinct and a lookup yields the outer value when it has the key, else the inner one; attaching metadata leaves hash, "
+              "depth and equality of the target unchanged; metadata is accepted exactly on collections, symbols and tagged values; a marker without "
+              "annotation or target, or with an annotation of another kind, is INVALID_SYNTAX. Tied to the code by scripts in both Clojure-flag "
+              "configurations: generated namespaced literals with mixed key kinds and planted post-qualification collisions against their explicit "
+              "expansion (equal, same hash, same dump, or both DUPLICATE_KEY); metadata chains of length 1..6 over the five forms with overlapping keys "
+              "on every target kind at nine nesting positions against the independently computed merge; scalar targets, wrong annotation kinds, "
+              "markers before closing delimiters and malformed prefixes must be rejected."),
+        design_ref="DESIGN.md section 6, C19",
+        note=NOTE_COMMON,
+        technique="Lean 4 proof (loop factorisation by induction on fuel, merge lemmas over the equality theorems) + correspondence check + desugaring oracle",
+    ),
     "C05": dict(
         category="proof",
         text=("Lean theorems (Edn.Properties.C05), with round-to-nearest-even defined in exact natural-number arithmetic: every entry of the "
